@@ -207,3 +207,13 @@ package config
 //@   requires f != nil && f.mainConfig != nil
 //@   ensures[the-token-in-force-is-the-configured-one] result == f.mainConfig.Debugging.QueryAuthToken
 //@   modifies f.mux
+
+// ---- C08 (a rule with a downstream sampler delegates to it): the rules sampler keeps its downstream samplers in a map
+// keyed by this string, at start-up and at every decision. The key is the rendering of the WHOLE rule - every field,
+// the downstream sampler's address included - which is what keeps two rules (same name, same scope) from sharing an
+// entry. (That fmt renders different rules differently is assumed; that the key is the whole rule is proved.)
+//@ contract config.(*RulesBasedSamplerRule).String#key props C08
+//@   assert only none
+//@   requires r != nil
+//@   ensures[the-key-is-the-rendering-of-the-whole-rule] result == fmt.Sprintf("%+v", *r)
+//@   modifies nothing
